@@ -1,5 +1,6 @@
 import JrsVerif.Common.J
 import JrsVerif.Model.StdArr
+import JrsVerif.Model.StdArrHof
 
 namespace JrsVerif.Drv.C10
 open Lean JrsVerif.J JrsVerif.StdArr
@@ -73,6 +74,162 @@ def errJ : Json := obj [("err", toJson (1 : Nat))]
 def optInt? (v : V) : Option (Option Int) :=
   match v with | .null => some none | .num n => some (some n) | _ => none
 
+/-! round 3: lazily evaluated elements, builder arguments, code-shaped models -/
+
+def errElem : Json := obj [("$err", toJson (1 : Nat))]
+
+def encLL (r : Option (List (Option V))) : Json :=
+  match r with
+  | some xs => obj [("ok", .arr (xs.map (fun e => match e with | some v => ofV v | none => errElem)).toArray)]
+  | none => errJ
+
+/-- strict dump of a lazy result: any failing element fails the whole manifest -/
+def encStrict (r : Option (List (Option V))) : Json := encL (r.bind evalAll)
+
+def nonForcing1 (n : String) : Bool := n == "true" || n == "const0" || n == "lit"
+
+/-- pool function applied to a thunk: the constant functions do not force their argument -/
+def fn1L (name : String) (e : Option V) : Option V :=
+  if nonForcing1 name then fn1 name .null else e.bind (fn1 name)
+
+def fn2L (name : String) (a : V) (e : Option V) : Option V :=
+  if name == "fst" then some a else e.bind (fn2 name a)
+
+def trivialOf (name : String) : Option V := if nonForcing1 name then fn1 name .null else none
+
+def encNats (r : Option (List Nat)) : Json := encL (r.map (fun l => l.map (fun (i : Nat) => V.num i)))
+def encNat (r : Option Nat) : Json := enc (r.map (fun (i : Nat) => V.num i))
+
+def encAvg (r : Option (Avg V)) : Json :=
+  match r with
+  | none => errJ
+  | some (.onEmpty v) => okV v
+  | some (.quot s n) => avgJson s n
+
+def isErrElem (j : Json) : Bool := match j.getObjVal? "$err" with | .ok _ => true | _ => false
+
+def toLazy (j : Json) : Option (Option V) := if isErrElem j then some none else (toV j).map some
+
+/-- argument of the lazy op: arrays may contain failing elements -/
+def toIdx (j : Json) : Option Idx :=
+  match j with
+  | .arr a => (a.toList.mapM toLazy).map Idx.arr
+  | _ => (toV j).map Idx.ofV
+
+def strictOf (c : Idx) : Option V :=
+  match c with
+  | .arr xs => (evalAll xs).map V.arr
+  | .str s => some (.str s)
+  | .other => none
+
+/-- arguments built by other builtins: evaluated here with the *reference* definitions -/
+partial def toArg (j : Json) : Option V :=
+  match j.getObjVal? "$b" with
+  | .ok (.arr b) =>
+    let arg (i : Nat) : Option V := b[i]?.bind toArg
+    let int (i : Nat) : Option Int := (arg i).bind asInt
+    let oint (i : Nat) : Option (Option Int) := (arg i).bind optInt?
+    let arr (i : Nat) : Option (List V) := (arg i).bind asArr
+    let name (i : Nat) : Option String := b[i]?.bind (fun x => x.getStr?.toOption)
+    match b[0]?.bind (fun x => x.getStr?.toOption) with
+    | some "range" => do let a ← int 1; let c ← int 2; pure (.arr (Spec.range a c))
+    | some "slice" => do
+        let xs ← arr 1; let i ← oint 2; let e ← oint 3; let st ← oint 4
+        pure (.arr (sliceL xs i e ((st.getD 1).toNat)))
+    | some "reverse" => do let xs ← arr 1; pure (.arr xs.reverse)
+    | some "repeat" => do let xs ← arr 1; let n ← int 2; pure (.arr (Spec.repeatL xs n.toNat))
+    | some "sort" => do let xs ← arr 1; (Spec.sort xs none).map V.arr
+    | some "map" => do let f ← name 1; let xs ← arr 2; (Spec.mapM' (fn1 f) xs).map V.arr
+    | some "mapWithIndex" => do let f ← name 1; let xs ← arr 2; (Spec.mapIdx (fn2 f) 0 xs).map V.arr
+    | some "filter" => do let f ← name 1; let xs ← arr 2; (Spec.filter (fn1 f) xs).map V.arr
+    | some "makeArray" => do
+        let n ← int 1; let f ← name 2
+        (((List.range n.toNat).map (fun (i : Nat) => V.num i)).mapM (fn1 f)).map V.arr
+    | some "concat" => do let xs ← arr 1; let ys ← arr 2; pure (.arr (xs ++ ys))
+    | some "chars" => do let s ← name 1; pure (.arr (chars s))
+    | some "bytes" => do
+        let s ← name 1
+        pure (.arr (s.toList.map (fun c => V.num c.toNat)))        -- ASCII only
+    | some "list" => ((b.toList.drop 1).mapM toArg).map V.arr
+    | some "local" => arg 1
+    | _ => none
+  | _ => toV j
+
+def onArr (c : Json) (k : Idx → List (Option V) → Json) (other : Idx → Json) : Option Json :=
+  (toIdx c).map (fun c => match c with | .arr xs => k c xs | _ => other c)
+
+def onEmptyArg (rest : List Json) : Option (Option (Option V)) :=
+  match rest with
+  | [] => some none
+  | [t] => (toLazy t).map some
+  | _ => none
+
+def callLazy (fn : String) (a : List Json) (f g : Option String) : Option Json :=
+  match fn, a with
+  | "any", [c] =>
+    onArr c (fun c xs => both (encB (Model.any c)) (encB (anySpec asBoolV xs))) (fun _ => both errJ errJ)
+  | "all", [c] =>
+    onArr c (fun c xs => both (encB (Model.all c)) (encB (allSpec asBoolV xs))) (fun _ => both errJ errJ)
+  | "member", [c, x] | "contains", [c, x] =>
+    (toV x).bind (fun x =>
+      onArr c (fun c xs => both (encB (Model.member c x)) (encB (anySpec (fun y => some (eqV y x)) xs)))
+        (fun c => modelOnly (encB (Model.member c x))))
+  | "find", [x, c] =>
+    (toV x).bind (fun x =>
+      onArr c (fun c xs => both (encNats (Model.find x c)) (encNats (findSpec (fun y => some (eqV y x)) xs)))
+        (fun _ => both errJ errJ))
+  | "count", [c, x] =>
+    (toV x).bind (fun x =>
+      onArr c (fun c xs => both (encNat (Model.count c x)) (encNat (countSpec (fun y => some (eqV y x)) xs)))
+        (fun _ => both errJ errJ))
+  | "foldl", [c, init] =>
+    (toV init).bind (fun init => f.bind (fun fname =>
+      onArr c (fun c xs => both (enc (Model.foldl (fn2 fname) c init))
+                                (enc ((evalAll xs).bind (foldlSpec (fn2 fname) init))))
+        (fun c => modelOnly (enc (Model.foldl (fn2 fname) c init)))))
+  | "foldr", [c, init] =>
+    (toV init).bind (fun init => f.bind (fun fname =>
+      onArr c (fun c xs => both (enc (Model.foldr (fn2 fname) c init))
+                                (enc ((evalAll xs).bind (foldrSpec (fn2 fname) init))))
+        (fun c => modelOnly (enc (Model.foldr (fn2 fname) c init)))))
+  | "map", [c] =>
+    f.bind (fun fname =>
+      onArr c (fun c xs => both (encLL (Model.map (fn1L fname) c)) (encLL (some (xs.map (fn1L fname)))))
+        (fun c => modelOnly (encLL (Model.map (fn1L fname) c))))
+  | "mapWithIndex", [c] =>
+    f.bind (fun fname =>
+      onArr c (fun c xs => both (encLL (Model.mapWithIndex (fn2L fname) c))
+          (encLL (some ((xs.zipIdx 0).map (fun p => fn2L fname (.num p.2) p.1)))))
+        (fun c => modelOnly (encLL (Model.mapWithIndex (fn2L fname) c))))
+  | "filter", [c] =>
+    f.bind (fun fname =>
+      onArr c (fun c xs => both (encLL (Model.filter (fn1L fname) c))
+                                (encLL (filterSpec (Model.boolPred (fn1L fname)) xs)))
+        (fun _ => both errJ errJ))
+  | "filterMap", [c] =>
+    f.bind (fun ff => g.bind (fun gg =>
+      onArr c (fun c xs => both (encLL (Model.filterMap (fn1L ff) (fn1L gg) c))
+          (encLL ((filterSpec (Model.boolPred (fn1L ff)) xs).map (fun ys => ys.map (fn1L gg)))))
+        (fun _ => both errJ errJ)))
+  | "flatMap", [c] =>
+    f.bind (fun fname =>
+      onArr c (fun c xs => both (enc (Model.flatMap (fn1 fname) c))
+                                (enc ((flatMapSpec (arrPieces (fn1 fname)) xs).map V.arr)))
+        (fun c => modelOnly (enc (Model.flatMap (fn1 fname) c))))
+  | "sum", [c] =>
+    onArr c (fun c xs => both (enc ((Model.sum c).map V.num))
+        (enc ((evalAll xs).bind (fun vs => (Spec.nums vs).map (fun ns => V.num ns.sum)))))
+      (fun _ => both errJ errJ)
+  | "avg", c :: rest =>
+    (onEmptyArg rest).bind (fun onEmpty =>
+      (toIdx c).map (fun c => modelOnly (encAvg (Model.avg c onEmpty))))
+  | "minArray", c :: rest | "maxArray", c :: rest =>
+    (onEmptyArg rest).bind (fun onEmpty =>
+      (toIdx c).map (fun c =>
+        let want : Ordering := if fn == "minArray" then .lt else .gt
+        modelOnly (enc (Model.minMax c f want onEmpty))))
+  | _, _ => none
+
 def call (fn : String) (a : List V) (f g : Option String) : Option Json :=
   match fn, a with
   | "sort", [v] =>
@@ -110,16 +267,18 @@ def call (fn : String) (a : List V) (f g : Option String) : Option Json :=
     | _, _ => some (both errJ errJ)
   | "member", [c, x] | "contains", [c, x] =>
     match c with
-    | .arr xs => some (specOnly (encB (some (Spec.member xs x))))
+    | .arr xs => some (both (encB (Model.member (Idx.ofV c) x)) (encB (some (Spec.member xs x))))
     | .str s =>
       match x with
-      | .str p => some (specOnly (encB (some (!p.isEmpty && Spec.isInfix p.toList s.toList))))
-      | _ => some (specOnly errJ)
-    | _ => some (specOnly errJ)
+      | .str p => some (both (encB (Model.member (Idx.ofV c) x))
+                             (encB (some (!p.isEmpty && Spec.isInfix p.toList s.toList))))
+      | _ => some (both (encB (Model.member (Idx.ofV c) x)) errJ)
+    | _ => some (both (encB (Model.member (Idx.ofV c) x)) errJ)
   | "find", [x, v] =>
-    some (specOnly (encL ((asArr v).map (fun xs => (Spec.find x xs).map (fun (i : Nat) => V.num i)))))
+    some (both (encNats (Model.find x (Idx.ofV v)))
+               (encL ((asArr v).map (fun xs => (Spec.find x xs).map (fun (i : Nat) => V.num i)))))
   | "count", [v, x] =>
-    some (specOnly (enc ((asArr v).map (fun xs => V.num (Spec.count xs x)))))
+    some (both (encNat (Model.count (Idx.ofV v) x)) (enc ((asArr v).map (fun xs => V.num (Spec.count xs x)))))
   | "removeAt", [v, i] =>
     match asArr v, asInt i with
     | some xs, some n => some (both (encL (some (removeAtM xs n))) (encL (some (removeAtSpec xs n))))
@@ -133,36 +292,53 @@ def call (fn : String) (a : List V) (f g : Option String) : Option Json :=
     match (asArr v).bind (fun xs => xs.mapM asArr) with
     | some xss => some (both (encL (some (flattenM xss))) (encL (some (flattenSpec xss))))
     | none => some (both errJ errJ)
-  | "flattenDeepArray", [v] => some (specOnly (encL (some (Spec.flattenDeep v))))
+  | "flattenDeepArray", [v] =>
+    some (both (encL (some (Model.flattenDeep v))) (encL (some (Spec.flattenDeep v))))
   | "foldl", [c, init] =>
     match asIdx c, f with
-    | some (xs, _), some fname => some (specOnly (enc (Spec.foldl (fn2 fname) init xs)))
+    | some (xs, _), some fname => some (both (enc (Model.foldl (fn2 fname) (Idx.ofV c) init))
+                                             (enc (Spec.foldl (fn2 fname) init xs)))
+    | _, some fname => some (both (enc (Model.foldl (fn2 fname) (Idx.ofV c) init)) errJ)
     | _, _ => some (specOnly errJ)
   | "foldr", [c, init] =>
     match asIdx c, f with
-    | some (xs, _), some fname => some (specOnly (enc (Spec.foldr (fn2 fname) init xs)))
+    | some (xs, _), some fname => some (both (enc (Model.foldr (fn2 fname) (Idx.ofV c) init))
+                                             (enc (Spec.foldr (fn2 fname) init xs)))
+    | _, some fname => some (both (enc (Model.foldr (fn2 fname) (Idx.ofV c) init)) errJ)
     | _, _ => some (specOnly errJ)
   | "map", [c] =>
     match asIdx c, f with
-    | some (xs, _), some fname => some (specOnly (encL (Spec.mapM' (fn1 fname) xs)))
+    | some (xs, _), some fname => some (both (encStrict (Model.map (fn1L fname) (Idx.ofV c)))
+                                             (encL (Spec.mapM' (fn1 fname) xs)))
+    | _, some fname => some (both (encStrict (Model.map (fn1L fname) (Idx.ofV c))) errJ)
     | _, _ => some (specOnly errJ)
   | "mapWithIndex", [c] =>
     match asIdx c, f with
-    | some (xs, _), some fname => some (specOnly (encL (Spec.mapIdx (fn2 fname) 0 xs)))
+    | some (xs, _), some fname => some (both (encStrict (Model.mapWithIndex (fn2L fname) (Idx.ofV c)))
+                                             (encL (Spec.mapIdx (fn2 fname) 0 xs)))
+    | _, some fname => some (both (encStrict (Model.mapWithIndex (fn2L fname) (Idx.ofV c))) errJ)
     | _, _ => some (specOnly errJ)
   | "filter", [v] =>
     match asArr v, f with
-    | some xs, some fname => some (specOnly (encL (Spec.filter (fn1 fname) xs)))
+    | some xs, some fname => some (both (encStrict (Model.filter (fn1L fname) (Idx.ofV v)))
+                                        (encL (Spec.filter (fn1 fname) xs)))
+    | none, some fname => some (both (encStrict (Model.filter (fn1L fname) (Idx.ofV v))) errJ)
     | _, _ => some (specOnly errJ)
   | "filterMap", [v] =>
     match asArr v, f, g with
     | some xs, some ff, some gg =>
-      some (specOnly (encL ((Spec.filter (fn1 ff) xs).bind (Spec.mapM' (fn1 gg)))))
+      some (both (encStrict (Model.filterMap (fn1L ff) (fn1L gg) (Idx.ofV v)))
+                 (encL ((Spec.filter (fn1 ff) xs).bind (Spec.mapM' (fn1 gg)))))
+    | none, some ff, some gg =>
+      some (both (encStrict (Model.filterMap (fn1L ff) (fn1L gg) (Idx.ofV v))) errJ)
     | _, _, _ => some (specOnly errJ)
   | "flatMap", [c] =>
     match c, f with
-    | .arr xs, some fname => some (specOnly (encL (Spec.flatMapArr (fn1 fname) xs)))
-    | .str s, some fname => some (specOnly (enc ((Spec.flatMapStr (fn1 fname) (chars s)).map V.str)))
+    | .arr xs, some fname => some (both (enc (Model.flatMap (fn1 fname) (Idx.ofV c)))
+                                        (encL (Spec.flatMapArr (fn1 fname) xs)))
+    | .str s, some fname => some (both (enc (Model.flatMap (fn1 fname) (Idx.ofV c)))
+                                       (enc ((Spec.flatMapStr (fn1 fname) (chars s)).map V.str)))
+    | _, some fname => some (both (enc (Model.flatMap (fn1 fname) (Idx.ofV c))) errJ)
     | _, _ => some (specOnly errJ)
   | "join", [sep, v] =>
     match sep, asArr v with
@@ -180,44 +356,52 @@ def call (fn : String) (a : List V) (f g : Option String) : Option Json :=
     match (asArr v).bind Spec.strItems with
     | some items =>
       -- native: join("\n", arr ++ [""]) ; documented: a newline after each (non-null) string
-      let m := String.ofList (joinM ['\n'] (items ++ [some []]))
+      let m := String.ofList (linesM '\n' items)
       let s := String.ofList ((items.filterMap id).foldr (fun p acc => p ++ '\n' :: acc) [])
       some (both (enc (some (.str m))) (enc (some (.str s))))
     | none => some (both errJ errJ)
-  | "deepJoin", [v] => some (specOnly (enc ((Spec.deepJoin v).map V.str)))
-  | "any", [v] => some (specOnly (encB ((asArr v).bind Spec.anyV)))
-  | "all", [v] => some (specOnly (encB ((asArr v).bind Spec.allV)))
+  | "deepJoin", [v] =>
+    some (both (enc ((Model.deepJoin v).map V.str)) (enc ((Spec.deepJoin v).map V.str)))
+  | "any", [v] => some (both (encB (Model.any (Idx.ofV v))) (encB ((asArr v).bind Spec.anyV)))
+  | "all", [v] => some (both (encB (Model.all (Idx.ofV v))) (encB ((asArr v).bind Spec.allV)))
   | "sum", [v] =>
-    some (specOnly (enc (((asArr v).bind Spec.nums).map (fun ns => V.num (ns.foldl (· + ·) 0)))))
+    some (both (enc ((Model.sum (Idx.ofV v)).map V.num))
+               (enc (((asArr v).bind Spec.nums).map (fun ns => V.num ns.sum))))
   | "avg", [v] =>
     match (asArr v).bind Spec.nums with
-    | some [] => some (specOnly errJ)
-    | some ns => some (specOnly (avgJson (ns.foldl (· + ·) 0) ns.length))
-    | none => some (specOnly errJ)
+    | some [] => some (both (encAvg (Model.avg (Idx.ofV v) none)) errJ)
+    | some ns => some (both (encAvg (Model.avg (Idx.ofV v) none)) (avgJson ns.sum ns.length))
+    | none => some (both (encAvg (Model.avg (Idx.ofV v) none)) errJ)
   | "avg", [v, onEmpty] =>
+    let m := encAvg (Model.avg (Idx.ofV v) (some (some onEmpty)))
     match (asArr v).bind Spec.nums with
-    | some [] => some (specOnly (okV onEmpty))
-    | some ns => some (specOnly (avgJson (ns.foldl (· + ·) 0) ns.length))
-    | none => some (specOnly errJ)
+    | some [] => some (both m (okV onEmpty))
+    | some ns => some (both m (avgJson ns.sum ns.length))
+    | none => some (both m errJ)
   | "minArray", v :: rest | "maxArray", v :: rest =>
     let want : Ordering := if fn == "minArray" then .lt else .gt
     match asArr v, rest with
     | some [], [onEmpty] => some (both (okV onEmpty) (okV onEmpty))
     | some xs, _ =>
-      let m := enc (Model.top1 xs f want)
+      let onE : Option (Option V) := match rest with | [t] => some (some t) | _ => none
+      let m := enc (Model.minMax (Idx.ofV v) f want onE)
       some (if keysFlat xs f then both m (enc (Spec.top1 xs f want)) else modelOnly m)
     | none, _ => some (both errJ errJ)
   | "range", [x, y] =>
     match asInt x, asInt y with
-    | some p, some q => some (specOnly (encL (some (Spec.range p q))))
-    | _, _ => some (specOnly errJ)
+    | some p, some q =>
+      -- the reference is defined for every pair of integers; `i32` is the implementation's limit
+      some (if inI32 p && inI32 q then both (encL (Model.range x y)) (encL (some (Spec.range p q)))
+            else modelOnly (encL (Model.range x y)))
+    | _, _ => some (both (encL (Model.range x y)) errJ)
   | "repeat", [w, c] =>
     match w, asInt c with
     | .arr xs, some n =>
-      some (specOnly (if n < 0 then errJ else encL (some (Spec.repeatL xs n.toNat))))
+      some (both (enc (Model.repeat_ w c)) (if n < 0 then errJ else encL (some (Spec.repeatL xs n.toNat))))
     | .str s, some n =>
-      some (specOnly (if n < 0 then errJ else enc (some (.str (String.ofList (Spec.repeatL s.toList n.toNat))))))
-    | _, _ => some (specOnly errJ)
+      some (both (enc (Model.repeat_ w c))
+        (if n < 0 then errJ else enc (some (.str (String.ofList (Spec.repeatL s.toList n.toNat))))))
+    | _, _ => some (both (enc (Model.repeat_ w c)) errJ)
   | "slice", [c, i, e, st] =>
     match asIdx c, optInt? i, optInt? e, optInt? st with
     | some (xs, isStr), some i', some e', some st' =>
@@ -225,13 +409,18 @@ def call (fn : String) (a : List V) (f g : Option String) : Option Json :=
       if !stepOk then some (specOnly errJ)
       else
         let r := sliceL xs i' e' ((st'.getD 1).toNat)
-        some (specOnly (if isStr then enc ((strOf r).map V.str) else encL (some r)))
+        if isStr then
+          -- string branch of `IndexableVal::slice` (skip/take/step_by) against the Python slice
+          some (both (enc ((strOf (sliceStrM xs i' e' ((st'.getD 1).toNat))).map V.str))
+                     (enc ((strOf r).map V.str)))
+        else some (specOnly (encL (some r)))
     | _, _, _, _ => some (specOnly errJ)
   | "makeArray", [n] =>
     match asInt n, f with
     | some k, some fname =>
-      some (specOnly (if k < 0 then errJ
-        else encL (((List.range k.toNat).map (fun (i : Nat) => V.num i)).mapM (fn1 fname))))
+      some (both (encStrict (Model.makeArray n (fn1 fname) (trivialOf fname)))
+        (if k < 0 then errJ
+         else encL (((List.range k.toNat).map (fun (i : Nat) => V.num i)).mapM (fn1 fname))))
     | _, _ => some (specOnly errJ)
   | _, _ => none
 
@@ -241,13 +430,23 @@ def handle (op : String) (j : Json) : Option Json :=
     match (do
       let fn ← str? j "fn"
       let a ← arr? j "a"
-      let vs ← a.toList.mapM toV
+      let vs ← a.toList.mapM toArg
       pure (fn, vs)) with
     | none => some (bad "std.call: parse")
     | some (fn, vs) =>
       match call fn vs (str? j "f") (str? j "g") with
       | some r => some r
       | none => some (bad s!"std.call: unknown fn/arity {fn}")
+  | "std.lazy" =>
+    match (do
+      let fn ← str? j "fn"
+      let a ← arr? j "a"
+      pure (fn, a.toList)) with
+    | none => some (bad "std.lazy: parse")
+    | some (fn, a) =>
+      match callLazy fn a (str? j "f") (str? j "g") with
+      | some r => some r
+      | none => some (bad s!"std.lazy: unknown fn/arity {fn}")
   | _ => none
 
 end JrsVerif.Drv.C10
